@@ -763,6 +763,10 @@ def execute(plan):
             'Flavor(DisableOverride, ToSubclass);\n'
             'class UX { [Key] string k; };\ninstance of UX { k = "1"; };\n',
             namespace='root/userns')
+        # a namespace that was removed again through the connection: its
+        # CIM_Namespace instance stays behind
+        ic.add_namespace('root/stale')
+        ic.remove_namespace('root/stale')
         iblob = pickle.dumps(ic.cimrepository._repository)  # noqa
 
         def icase(api, reason, fn):
@@ -824,6 +828,16 @@ def execute(plan):
                     icase('CreateInstance(CIM_Namespace)', 'missing_key',
                           lambda c, ni=ni: c.CreateInstance(
                               ni, namespace='interop'))
+            # the namespace of a left-over CIM_Namespace instance is created
+            # again
+            ni = CIMInstance(proto.classname, properties=copy.deepcopy(
+                list(proto.properties.values())))
+            ni['Name'] = 'root/stale'
+            icase('CreateInstance(CIM_Namespace)',
+                  'instance_exists_namespace_gone',
+                  lambda c, ni=ni: c.CreateInstance(ni, namespace='interop'))
+            icase('add_namespace', 'instance_exists_namespace_gone',
+                  lambda c: c.add_namespace('root/stale'))
             # DeleteClass of a class one of whose instances may not be
             # deleted (the provider rejects the Interop namespace itself)
             icase('DeleteClass(CIM_Namespace)', 'instance_not_deletable',
